@@ -1,5 +1,5 @@
 (** C06 — layout fixes change only layout. Pinned statements only. *)
-From Sq Require Import Base.Bytes FixTree.Model FixTree.Proofs FixTree.Examples.
+From Sq Require Import Base.Bytes FixTree.Model FixTree.Proofs FixTree.Examples FixTree.Loop.
 
 (** [apply_fixes] (fuel, consumption of the fix map, first-match, pair reversal, recursion
     into inserted segments) computes the lookup-based rewriting [rw] of the tree: under
@@ -39,6 +39,17 @@ Theorem C06_tree : forall bs st,
   exists st', run st bs = Some st' /\ same_content (fst st) (fst st').
 Proof. exact run_preserves. Qed.
 Print Assumptions C06_tree.
+
+(** The same through the loop as the code runs it (phase Main: up to 10 passes over every
+    rule, phase Post: up to 2 passes, a pass applies each rule's non-empty batch in turn,
+    stop when a pass accepts nothing), the rules being arbitrary functions from trees to fix
+    lists: if every batch they propose passes the monitored conditions, the loop terminates
+    normally and the final tree has the content of the parsed one. *)
+Theorem C06_loop : forall all_rules post_rules t,
+  rules_ok all_rules -> rules_ok post_rules ->
+  exists st', lint_fix_loop all_rules post_rules t = Some st' /\ same_content t (fst st').
+Proof. exact loop_preserves. Qed.
+Print Assumptions C06_loop.
 
 (** Text level: tree-level preservation plus re-lex stability of the final tree give the
     property as stated on texts, for any lexer. *)
@@ -83,3 +94,9 @@ Theorem C06_text_hypotheses_satisfiable :
                   /\ seg_raw tf <> seg_raw ex_t2.
 Proof. exact text_hypotheses_satisfiable. Qed.
 Print Assumptions C06_text_hypotheses_satisfiable.
+
+Theorem C06_loop_rules_ok_satisfiable : rules_ok [ex_rule_a] /\
+  option_map (fun st => map l_id (leaves (fst st))) (lint_fix_loop [ex_rule_a] [] ex_t2)
+  = Some [1; 2; 4; 5; 20; 6; 8].
+Proof. exact (conj ex_rule_a_ok loop_runs). Qed.
+Print Assumptions C06_loop_rules_ok_satisfiable.
